@@ -741,7 +741,10 @@ pub fn check_c13(ctx: &mut Ctx, base: &[u8], pad: u8) {
     if base.len() < 4 || base[0] & 0x20 != 0 || pad == 0 || pad % 4 != 0 || base.len() + pad as usize > enc::MAX_PACKET_BYTES {
         return;
     }
-    let Some(ty) = Ty::of_pt(base[1]) else { return };
+    let Some(ty) = Ty::of_pt(base[1]) else {
+        check_c13_third_party(ctx, base, pad);
+        return;
+    };
     ctx.eval();
     let p_data = exact(base);
     let q = enc::pad(base, pad);
@@ -841,6 +844,81 @@ pub fn check_c13(ctx: &mut Ctx, base: &[u8], pad: u8) {
     }
 }
 
+/// A packet of a type the crate does not know, read the way a third-party type reads it (generic parser ->
+/// unknown packet -> `TryFrom<&Unknown>` built on `Unknown::data()`, as tests/custom_packet.rs shows): padding is
+/// transparent to its content as well.
+fn check_c13_third_party(ctx: &mut Ctx, base: &[u8], pad: u8) {
+    let pt = base[1];
+    if !crate::custom::PTS.contains(&pt) {
+        return;
+    }
+    ctx.eval();
+    let p_data = exact(base);
+    let q = enc::pad(base, pad);
+    let q_data = exact(&q);
+    let case = || bytes_case("c13", base).set("pad", pad);
+    // (count, body bytes, padding) through Packet::parse + try_as, and through Unknown::parse + try_as
+    type Obs = Result<(u8, Vec<u8>, Option<u8>), String>;
+    let read = |d: &[u8]| -> Result<Option<(Obs, Obs)>, crate::drive::Panicked> {
+        call(|| {
+            crate::with_custom!(pt, 4usize, C, B, {
+                let a: Obs = (|| {
+                    let p = Packet::parse(d).map_err(|e| format!("Packet::parse: {e:?}"))?;
+                    let c = p.try_as::<C>().map_err(|e| format!("Packet::try_as: {e:?}"))?;
+                    Ok((c.count(), c.body().to_vec(), c.padding()))
+                })();
+                let b: Obs = (|| {
+                    let u = Unknown::parse(d).map_err(|e| format!("Unknown::parse: {e:?}"))?;
+                    let c = u.try_as::<C>().map_err(|e| format!("Unknown::try_as: {e:?}"))?;
+                    Ok((c.count(), c.body().to_vec(), c.padding()))
+                })();
+                (a, b)
+            })
+        })
+    };
+    let un = match read(&p_data) {
+        Ok(Some((Ok(a), Ok(b)))) if a == b => a,
+        Ok(_) => {
+            ctx.class("c13:skipped:unpadded-not-accepted");
+            return;
+        }
+        Err(_) => {
+            crate::mon::parsers::other_property(ctx, "c13", "unpadded-observation-panics(C01)");
+            return;
+        }
+    };
+    match read(&q_data) {
+        Err(p) => ctx.violate("no-panic", "third-party", &crate::drive::panic_feature(&p), case, "accessors return on the padded packet", format!("panic at {}: {} (padding {pad})", short_site(&p.site), p.msg)),
+        Ok(None) => {}
+        Ok(Some((a, b))) => {
+            for (route, r) in [("Packet::try_as", a), ("Unknown::try_as", b)] {
+                match r {
+                    Err(e) => {
+                        ctx.violate("padded-accepted", "third-party", route, case, format!("the packet with {pad} bytes of RFC 3550 padding converts to the third-party type"), e);
+                        return;
+                    }
+                    Ok((count, body, padding)) => {
+                        if padding != Some(pad) {
+                            ctx.violate("padding-accessor", "third-party", "value", case, format!("padding() == Some({pad})"), format!("{padding:?}"));
+                        } else if (count, &body) != (un.0, &un.1) {
+                            ctx.violate(
+                                "content-unchanged",
+                                "third-party",
+                                route,
+                                case,
+                                format!("count {} and body {} as on the unpadded packet", un.0, hex(&un.1[..un.1.len().min(48)])),
+                                format!("with {pad} bytes of padding: count {count}, body {}", hex(&body[..body.len().min(48)])),
+                            );
+                        }
+                    }
+                }
+            }
+            ctx.class_dyn(format!("c13:third-party:pad={}", match pad { 4 => "4", 252 => "252", _ => "other" }));
+            ctx.nontrivial(fnv(base) ^ ((pad as u64) << 56));
+        }
+    }
+}
+
 fn pads_for(ctx: &Ctx, s: &mut Src) -> Vec<u8> {
     if ctx.thorough && ctx.scale >= 1.0 {
         (4..=252u16).step_by(4).map(|p| p as u8).collect()
@@ -876,6 +954,12 @@ pub fn run_c13(ctx: &mut Ctx, shard: usize, nshards: usize) {
         bases.push(Cfg::Sr { ssrc: 3, ntp: 4, rtp: 5, pc: 6, oc: 7, blocks: (0..l).map(|k| Rb { ssrc: k as u32, fraction: 1, cumulative: 2, ext_seq: 3, jitter: 4, lsr: 5, dlsr: 6 }).collect(), padding: 0 });
     }
     bases.push(Cfg::Fb { kind: FbKind::Payload, sender: 1, media: 2, fci: Fci::Pli, padding: 0 });
+    // packets of types the crate does not know, read through a third-party type built on Unknown::data()
+    for &pt in &crate::custom::PTS {
+        for words in [0usize, 1, 2, 16] {
+            bases.push(Cfg::Unknown { pt, count: (words as u8 * 7 + 3) & 0x1f, data: (0..4 * words).map(|i| 0x60 + i as u8).collect(), padding: 0 });
+        }
+    }
     bases.push(Cfg::Sdes { chunks: vec![], padding: 0 });
     bases.push(Cfg::Sdes { chunks: vec![Chunk { ssrc: 0, items: vec![] }], padding: 0 });
     // relational configurations (contiguous SLI runs, FCIs of 256 / 512 bytes, blank strings, item-less chunks, ...)
@@ -971,6 +1055,10 @@ pub fn floor_c13(ctx: &Ctx) -> Vec<(String, bool)> {
             let c = format!("c13:{t}:pad={p}");
             f.push((c.clone(), all.contains_key(&c) || !ctx.violation_counts.is_empty()));
         }
+    }
+    for p in ["4", "252", "other"] {
+        let c = format!("c13:third-party:pad={p}");
+        f.push((c.clone(), all.contains_key(&c) || !ctx.violation_counts.is_empty() || ctx.scale < 0.5));
     }
     for t in ["nack", "pli", "sli", "rpsi", "fir"] {
         for p in ["4", "252"] {
